@@ -692,9 +692,30 @@ package gmars
 //@ lemma modInj [C09][C16]: forall a, b :: 0 <= a && a <= 6 && 0 <= b && b <= 6 && modLower(a) == modLower(b) ==> a == b
 //@ lemma amInj [C09][C16]: forall a, b :: 0 <= a && a <= 7 && 0 <= b && b <= 7 && amName(a) == amName(b) ==> a == b
 
+//@ uf runes(s Str) int
+//@ uf endsNL(s Str) bool
+//@ uf hasPrefix(s Str, p Str) bool
+//@ uf contains(s Str, p Str) bool
 //@ extern strings.ToLower
 //@   modifies nothing
 //@   ensures result == lower(s)
+// ToLower maps rune to rune (the byte length may change, the rune count does not); a rune is at least one byte
+//@   ensures runes(result) == runes(s) && len(s) >= runes(s) && len(result) >= runes(result) && (endsNL(s) ==> endsNL(result))
+//@ extern strings.HasPrefix
+//@   modifies nothing
+//@   ensures result == hasPrefix(s, prefix) && (result ==> runes(s) >= runes(prefix)) && (result && runes(s) == runes(prefix) ==> s == prefix)
+//@ extern strings.Contains
+//@   modifies nothing
+//@   ensures result == contains(s, substr)
+//@ extern strings.TrimSpace
+//@   modifies nothing
+//@ extern strings.ReplaceAll
+//@   modifies nothing
+//@ extern strings.Fields
+//@   modifies nothing
+//@ extern strings.Split
+//@   modifies nothing
+//@   ensures len(sep) > 0 ==> len(result) >= 1
 
 //@ uf sprintf(f Str, args (Array Int Int), n int) Str
 //@ extern fmt.Sprintf
@@ -758,12 +779,14 @@ package gmars
 //@   ensures [C06] result.0 <= 6
 
 // ICWS'88: operand combinations the standard allows and the modifier it implies
-//@ pure combo88(op int, am int, bm int) = ite(op == DAT, (am == IMMEDIATE || am == B_DECREMENT) && (bm == IMMEDIATE || bm == B_DECREMENT),
-//@      ite(op == MOV || op == CMP || op == ADD || op == SUB, bm != IMMEDIATE,
-//@      ite(op == JMP || op == JMZ || op == JMN || op == DJN || op == SPL, am != IMMEDIATE, true)))
+//@ pure combo88(op int, am int, bm int) = (op == DAT ==> (am == IMMEDIATE || am == B_DECREMENT) && (bm == IMMEDIATE || bm == B_DECREMENT))
+//@      && (op == MOV || op == CMP || op == ADD || op == SUB ==> bm != IMMEDIATE)
+//@      && (op == JMP || op == JMZ || op == JMN || op == DJN || op == SPL ==> am != IMMEDIATE)
 //@ pure mod88(op int, am int) = ite(op == DAT, F, ite(op == MOV || op == CMP, ite(am == IMMEDIATE, AB, I),
 //@      ite(op == ADD || op == SUB, ite(am == IMMEDIATE, AB, F), ite(op == SLT, ite(am == IMMEDIATE, AB, B), B))))
-//@ pure legal88(x Instruction) = is88op(x.Op) && is88mode(x.AMode) && is88mode(x.BMode) && combo88(x.Op, x.AMode, x.BMode) && x.OpMode == mod88(x.Op, x.AMode)
+// (an uninterpreted predicate with a definitional axiom: loop invariants over code sequences then need congruence only)
+//@ uf legal88f(op int, md int, am int, bm int) bool = is88op(op) && is88mode(am) && is88mode(bm) && combo88(op, am, bm) && md == mod88(op, am)
+//@ pure legal88(x Instruction) = legal88f(x.Op, x.OpMode, x.AMode, x.BMode)
 //@ func getOpModeAndValidate88
 //@   panics [C05][C06][C10]
 //@   modifies nothing
@@ -808,3 +831,65 @@ package gmars
 //@     invariant [C16] rangeindex == 0 - 1 ==> out == ite(w.sim.legacy, "", "" + "       ORG      START\n")
 //@     backedge [C16] out == iter(out) + listingLine(w, rangeindex)
 //@     decreases len(w.data.Code) - rangeindex
+
+// ---------------------------------------------------------------------------
+// load.go: the load-file readers (C10, C09)
+
+//@ ghost bufio_Reader.left Int
+//@ ghost bufio_Reader.pending Bool
+//@ extern bufio.NewReader
+//@   modifies nothing
+//@   ensures fresh(result) && result.left >= 0 && !result.pending
+// ReadString returns the data read before an error together with the error; input is finite
+//@ extern (*bufio.Reader).ReadString
+//@   requires b != nil
+//@   modifies ghost b.left, ghost b.pending
+//@   ensures result.1 == nil ==> len(result.0) >= 1 && endsNL(result.0)
+//@   ensures b.left >= 0 && (len(result.0) > 0 ==> b.left < old(b.left)) && b.left <= old(b.left)
+//@   ensures b.pending == (result.1 != nil && len(result.0) > 0)
+
+//@ pure codeWf(d WarriorData, m int) = forall k :: 0 <= k && k < len(d.Code) ==> wfI(d.Code[k], m)
+//@ pure codeLegal88(d WarriorData) = forall k :: 0 <= k && k < len(d.Code) ==> legal88(d.Code[k])
+
+//@ func parseLoadFile94
+//@   panics [C10][C05]
+//@   requires 1 <= coresize && coresize <= 4294967296
+//@   modifies nothing
+//@   ensures [C10] result.1 != nil ==> len(result.0.Code) == 0 && result.0.Start == 0
+//@   ensures [C10] result.1 == nil ==> 0 <= result.0.Start && result.0.Start < len(result.0.Code) && codeWf(result.0, coresize)
+//@   loop 1
+//@     invariant data.Start >= 0 && codeWf(data, coresize) && breader != nil && breader.left >= 0 && fresh(breader)
+//@     decreases [C10] breader.left
+// nothing is skipped silently: a line with fields either appends one instruction, is an 'org' directive, or ends the loop / fails
+//@     iteration [C10] len(fields) == 0 || (len(data.Code) == iter(len(data.Code)) + 1 && data.Start == iter(data.Start)) || (len(fields) == 2 && fields[0] == "org" && len(data.Code) == iter(len(data.Code)))
+//@     exit [C10] len(fields) == 1 && fields[0] == "end"
+// leaving on a reader error: no data may be pending (a last line without a final newline is not dropped)
+//@     exit header [C10][C09] len(raw_line) == 0
+
+//@ func parseLoadFile88
+//@   panics [C10][C05]
+//@   requires 1 <= coresize && coresize <= 4294967296
+//@   modifies nothing
+//@   ensures [C10] result.1 != nil ==> len(result.0.Code) == 0 && result.0.Start == 0
+//@   ensures [C10] result.1 == nil ==> 0 <= result.0.Start && (result.0.Start < len(result.0.Code) || (result.0.Start == 0 && len(result.0.Code) == 0))
+//@   ensures [C10] result.1 == nil ==> codeWf(result.0, coresize) && codeLegal88(result.0)
+//@   loop 1
+//@     invariant codeWf(data, coresize) && codeLegal88(data) && breader != nil && breader.left >= 0 && fresh(breader)
+//@     invariant [C10] data.Start >= 0
+//@     decreases [C10] breader.left
+//@     iteration [C10] len(fields) == 0 || (len(data.Code) == iter(len(data.Code)) + 1 && data.Start == iter(data.Start)) || (len(fields) == 2 && fields[0] == "org" && len(data.Code) == iter(len(data.Code)))
+//@     exit [C10] fields[0] == "end"
+//@     exit header [C10][C09] len(raw_line) == 0
+
+//@ func ParseLoadFile
+//@   panics [C10][C05]
+//@   requires 1 <= simConfig.CoreSize && simConfig.CoreSize <= 4294967296
+//@   modifies nothing
+//@   ensures [C10] result.1 != nil ==> len(result.0.Code) == 0 && result.0.Start == 0
+//@   ensures [C10] result.1 == nil ==> 0 <= result.0.Start && (result.0.Start < len(result.0.Code) || (result.0.Start == 0 && len(result.0.Code) == 0)) && codeWf(result.0, simConfig.CoreSize)
+//@   ensures [C10] result.1 == nil && simConfig.Mode == ICWS88 ==> codeLegal88(result.0)
+
+//@ func getOp94
+//@   panics [C10][C05]
+//@   modifies nothing
+//@   ensures [C10][C06] result.2 == nil ==> result.0 <= 16 && result.1 <= 6
